@@ -523,6 +523,7 @@ class HTTPWARCRecorderSession(BaseWARCRecorderSession):
         self._request_record = None
         self._response_record = None
         self._response_temp_file = self._new_temp_file(hint='warcsesrsp')
+        self._response_payload_offset = None
 
     def close(self):
         super().close()
@@ -574,12 +575,16 @@ class HTTPWARCRecorderSession(BaseWARCRecorderSession):
         record.fields['WARC-Concurrent-To'] = self._request_record.fields[
             WARCRecord.WARC_RECORD_ID]
         record.block_file = self._response_temp_file
+        # The header block as received ends here. Re-serialising the parsed
+        # response would give a different length whenever the server's
+        # formatting is not canonical or trailer fields were merged in.
+        self._response_payload_offset = self._response_temp_file.tell()
 
     def response_data(self, data: bytes):
         self._response_temp_file.write(data)
 
     def end_response(self, response: HTTPResponse):
-        payload_offset = len(response.to_bytes())
+        payload_offset = self._response_payload_offset
 
         self._response_record.block_file.seek(0)
         self._recorder.set_length_and_maybe_checksums(
